@@ -114,12 +114,23 @@ def run(facts, res):
     c = facts.body("melda::Melda::commit")
     if c is not None:
         cfg = cfg_of(c)
-        tc = [s for s in cg.sites[c.path] if s.callee is not None and s.callee.target() == "revisiontree::RevisionTree::commit"]
+        from ..common import inlined_sites, iter_chain
+        tc = inlined_sites(facts, c, lambda t: t.callee.target() == "revisiontree::RevisionTree::commit")
         res.floor("G2", "RevisionTree::commit call in commit", len(tc), 1)
         for s in tc:
             whole = False
             hdr = None
-            for l in lits_of(c, s.block, facts):
+            if s.body.kind == "closure" and s.outer_body is c:
+                # `documents.values().for_each(|rt| rt.lock().commit())`: the closure is applied to the whole document map
+                ct_ = c.blocks[s.outer_block].term
+                if ct_.callee is not None and ct_.callee.name in ("for_each", "try_for_each") and ct_.args:
+                    recv_ = arg_term(c, ct_, 0, 30)
+                    names = [callee_name(x) for x in iter_chain(recv_)]
+                    if any(x[0] == "field" and x[2] == "documents" for x in walk(recv_)) and \
+                            not (set(names) & {"take", "skip", "filter", "step_by", "take_while", "skip_while", "filter_map", "find"}):
+                        whole = True
+                        hdr = s.outer_block
+            for l in (lits_of(c, s.block, facts) if s.body is c else []):
                 if l.kind == "variant" and l.variants == {"Some"}:
                     pt = peel(l.term)
                     if pt[0] == "call" and callee_name(pt) == "next":
@@ -195,8 +206,13 @@ def run(facts, res):
         if wk != rk or wk != want:
             res.violation("G4", "stage-keys", "stage writes keys %s, replay_stage reads %s (constants: %s)" % (sorted(wk), sorted(rk), sorted(want)), rp.loc())
         arr = []
+        from ..common import closure_call_mapping
+        from ..defuse import subst as _subst
         for cb in [st] + facts.closures_of(st.path):
-            arr += tables.array_literals(cb)
+            mp_ = closure_call_mapping(facts, cb) if cb.kind == "closure" else None
+            for (n_, els_, ln_, bi_) in tables.array_literals(cb):
+                # a record-builder closure called by name: its parameters stand for the arguments of the call
+                arr.append((n_, [_subst(e_, mp_) for e_ in els_] if mp_ else els_, ln_, bi_))
         w_ar = sorted({n for n, _, _, _ in arr})
         lc = tables.len_compared_consts(rp)
         r_ar = sorted({c_ for (op, c_) in lc if op == "Eq"})
